@@ -1091,8 +1091,6 @@ static void geigs_ctor(GEigs *g, Index an, Index bn, Index nev, Index ncv)
 {
   EIG_ASSERT(an == bn, "SymGEigsSolver: the A operator and the Cholesky operator of B have the same dimension");
   g->n = an; g->nev = nev; g->ncv = ncv; g->nconv = 0; g->info = CompInfo_NotComputed; g->inited = 0;
-  INNER_CTOR_PRE(1 <= nev && nev <= an - 1, "precondition of the SymGEigsSolver constructor at its call site: 1 <= nev <= n - 1");
-  INNER_CTOR_PRE(nev < ncv && ncv <= an, "precondition of the SymGEigsSolver constructor at its call site: nev < ncv <= n (otherwise std::invalid_argument leaves compute())");
   if (!(1 <= nev && nev <= an - 1) || !(nev < ncv && ncv <= an)) { verif_exc = EXC_invalid_argument; return; }
 }
 static void geigs_init(GEigs *g) { g->inited = 1; }
@@ -1152,7 +1150,10 @@ def f_compute(P):
         a = [t.strip() for t in X.split_top(m.group(2))]
         if len(a) != 4 or not re.match(r"^\w+$", a[0]) or not re.match(r"^\w+$", a[1]):
             raise X.ExtractionBreak("compute: SymGEigsSolver constructor call not understood")
-        return "GEigs %s; geigs_ctor(&%s, %s_n, %s_n, %s, %s);" % (G, G, a[0], a[1], a[2], a[3])
+        return ("GEigs %s; INNER_CTOR_PRE(1 <= (%s) && (%s) <= %s_n - 1, %s); INNER_CTOR_PRE((%s) < (%s) && (%s) <= %s_n, %s); geigs_ctor(&%s, %s_n, %s_n, %s, %s);" %
+                (G, a[2], a[2], a[0], Q("precondition of the SymGEigsSolver constructor at its call site: 1 <= nev <= n - 1"),
+                 a[2], a[3], a[3], a[0], Q("precondition of the SymGEigsSolver constructor at its call site: nev < ncv <= n (otherwise std::invalid_argument leaves compute())"),
+                 G, a[0], a[1], a[2], a[3]))
     pre_rules += [
         ("inner-ctor", r"SymGEigsSolver<[^;{}]*?>\s*(%s)\(([^;]+)\);" % G, ctor, {"max": 1}),
         ("inner-init", r"\b%s\.init\(\);" % G, "geigs_init(&%s);" % G, {"max": 1}),
@@ -1180,8 +1181,12 @@ def f_compute(P):
            "SH_OK(self->m_residuals) && SH_OK(self->m_evectors)) " +
            "__CPROVER_decreases(%s - %s)" % (MAXIT, IT))
     fill = ("__CPROVER_assigns(i, g_unch) __CPROVER_loop_invariant(0 <= i && i <= self->m_nev) __CPROVER_decreases(self->m_nev - i)")
-    if len(re.findall(r"for \(int i = 0; i < m_nev; i\+\+\)", f.body)) != 2:
-        raise X.ExtractionBreak("compute: the two residual-fill loops not recognised")
+    refills = []
+    for m in re.finditer(r"m_residuals\.resize\(m_n, m_nev\);\s*for \(int i = 0; i < m_nev; i\+\+\)\s*\{", f.body):
+        refills.append(" ".join(f.body[m.start():X.match_close(f.body, m.end() - 1) + 1].split()))
+    if len(refills) != 2 or refills[0] != refills[1] or len(re.findall(r"for \(int i = 0; i < m_nev; i\+\+\)", f.body)) != 2:
+        raise X.ExtractionBreak("compute: the two residual blocks (resize + refill, inside and after the iteration loop) are not the same text: the determinism assumption on the convergence test does not apply")
+    P.report["compute: residual refill (both sites, identical text)"] = refills[0]
     specs = {v: compute_spec(P, v) for v in ("shapes", "inner_ctor", "status", "accessors")}
     t = P.emit(f, "compute", specs["shapes"], finfo=fi, pre_rules=pre_rules, loop_contracts={0: inv, 1: fill, 2: fill},
                maythrow=["geigs_ctor", "geigs_compute"], decomps={G: "geigs"}, extra_scalars=["Aop_n", "Bop_n", V])
@@ -1258,3 +1263,110 @@ def f_ctor_setters(P):
                    frame=["self->" + member, "self->" + flag, "g_unch"], may_throw=[1] if nm == "setB" else [], real=HDR + ":" + nm)
         out[nm] = (P.emit(f, nm, sp, finfo=fi), sp, sp.harness("h", P.alloc + "  SparseMatrix %s = ND_SH();\n" % arg, "self, " + arg))
     return out
+
+
+# =========================================================================== groups
+
+ASSUMPTIONS = [
+    "floating-point VALUES of every Eigen expression are dropped (nondeterministic): shapes, index expressions, ints, flags, status and control flow are kept; sqrt of a dropped value is a dropped value",
+    "Eigen product / sum / block / coefficient semantics: the assertions generated by the shape evaluator are Eigen's own (eigen_assert) conditions; Matrix(expr), sparseView(), real(), cast<>(), cwiseSqrt() keep the shape; "
+    "asDiagonal() of an n-vector is n x n; Identity(a, b) is a x b",
+    "ASSUMED library contract Eigen::SimplicialLDLT<SparseMatrix>: needs a square matrix; info() is Success or NumericalIssue; matrixU() is n x n, vectorD() has n entries (the AMD permutation it applies is NOT modelled: numerical)",
+    "ASSUMED library contract Eigen::BDCSVD (bdcSvd(ComputeThinU | ComputeThinV).solve(rhs)): rhs has as many rows as the decomposed r x c matrix, the solution is c x rhs.cols",
+    "ASSUMED library contract Eigen::EigenSolver<Matrix>: needs a square matrix; n eigenvalues, n x n eigenvectors; ASSUMED to succeed on the finite symmetric k x k matrix X'AX of compute() "
+    "(if it failed on a fresh object, the final residual loop would read m_evalues(i) of an empty vector: recorded here, not reported)",
+    "ASSUMED (quantifier of the property: full-rank initial block, SPD B): the FIRST orthogonalizeInPlace call of a compute() - the initial block - succeeds. Outside the quantifier (rank-deficient X) the real code multiplies "
+    "the empty BX by a k x k matrix at `BX = BX * sparse_eVecX` (Eigen assertion in debug builds): replay mode 4",
+    "ASSUMED callee contract Spectra::SymGEigsSolver<DenseSymMatProd, DenseCholesky, Cholesky>: constructor accepts exactly 1 <= nev <= n - 1, nev < ncv <= n and throws std::invalid_argument otherwise (proved: C12); "
+    "after init() + compute(): info() in {Successful, NotConverging, NumericalIssue}, eigenvalues() has nconv <= nev entries (== nev when Successful), eigenvectors() is n x nconv (C01/C05); compute() may throw std::runtime_error; "
+    "DenseSymMatProd / DenseCholesky need a square matrix (asserted at the call site); DenseCholesky::info() is never examined by LOBPCGSolver (numerical)",
+    "ASSUMED library contract std::map::insert: the first key is inserted, a later one unless an equivalent key is present (so sort_epairs may read back FEWER pairs than columns: equal Ritz values lose a pair - numerical, "
+    "excluded by `well-separated eigenvalues`); std::function / std::less / std::greater: values dropped",
+    "ASSUMED library contract std::find [alg.find] on the index list; std::vector<int> is an array with a capacity obligation; std::vector<Eigen::Triplet> is (count, largest row, largest column); "
+    "setFromTriplets needs every triplet inside the matrix (Eigen's assertion)",
+    "determinism of the convergence test: the same residual block, resized and refilled by the SAME statements (checked on the text) from operands that no statement has redefined since the last call, gives the same count "
+    "(used only for the path `BlockSize == 0 -> break -> final test`)",
+    "forall-instantiation meta-rule: removeColumns' precondition (entries strictly increasing and in range), proved at every call site for unconstrained Skolem positions, is assumed inside its body at the positions the "
+    "ghost cursor and the std::find witness talk about (counted in coverage.extraction)",
+    "class invariant as precondition of compute(): constructor (proved) + setB (proved: validates) + setConstraints / setPreconditioner with conforming arguments (these two setters validate NOTHING: caller's responsibility); "
+    "n, k >= 1 and below the machine-integer cap 2^20; any prior m_info, m_residuals, m_evectors, m_evalues (object reuse)",
+]
+NOT_COVERED = ["eigenvalues() are the k smallest eigenvalues of the pencil, in ascending order (numerical; sort_epairs also drops pairs with equal values)",
+               "X'BX = I (numerical; SimplicialLDLT's fill-reducing permutation is ignored by orthogonalizeInPlace)",
+               "residuals() == A X - B X diag(eigenvalues) and the bound ||r_j|| < tol * n themselves (numerical; the structural part - which test decides the status - is covered)",
+               "termination / convergence of the iteration beyond the decreases clause of each loop", "finiteness of the Eigen arithmetic (division by a zero LDLT pivot in orthogonalizeInPlace)"]
+
+
+def build(tier):
+    report = {}
+    P = Pack(report)
+    groups = []
+
+    def G(name, text, enforce, fns, expect=(), timeout=300, note="", defines=()):
+        groups.append(Group("lobpcg." + name, text, "h", enforce=enforce, solver="cadical", defines=["SCALAR_DOUBLE"] + list(defines), timeout=timeout,
+                            functions=fns, expect_classes=list(expect) or ["assigns"], note=note))
+
+    specs = {}
+    for nm in ("stack_4_matricies", "stack_9_matricies"):
+        t, sp, h = f_stack(P, nm)
+        specs[nm] = sp
+        G(nm, P.base + t + h, nm, [HDR + ":" + nm], expect=["assigns", "Eigen block assertion", "assignment to a block"])
+    for key, fn_, nm, exp in (("orthogonalizeInPlace", f_orth, "orthogonalizeInPlace", ["loop_invariant_step", "product dimensions agree", "decomposition needs a square", "triangular solve"]),
+                              ("applyConstraintsInPlace", f_constraints, "applyConstraintsInPlace", ["product dimensions agree", "solve() needs", "sum/difference"]),
+                              ("sort_epairs", f_sort, "sort_epairs", ["loop_invariant_step", "column index in range", "vector coefficient in range"]),
+                              ("removeColumns", f_remove, "removeColumns", ["loop_invariant_step", "setFromTriplets", "product dimensions agree", "matrix dims >= 0"]),
+                              ("checkConvergence_getBlocksize", f_check, "checkConvergence_getBlocksize", ["loop_invariant_step", "coefficient (row, col) in range", "push_back within"])):
+        t, sp, h = fn_(P)
+        specs[key] = sp
+        G(key, P.base + t + h, nm, [HDR + ":" + nm], expect=exp, timeout=400 if key.startswith("check") else 300)
+    for key, (t, sp, h) in f_ctor_setters(P).items():
+        G(key if key != "ctor" else "constructor", P.base + t + h, sp.cname, [HDR + ":" + (key if key != "ctor" else CLS)])
+    defs, t, cspecs, harn = f_compute(P)
+    stubs = "".join(stub_text(specs[k]) for k in ("orthogonalizeInPlace", "applyConstraintsInPlace", "sort_epairs", "removeColumns", "checkConvergence_getBlocksize",
+                                                   "stack_4_matricies", "stack_9_matricies"))
+    ctext = P.base + "Index g_p;\n" + defs + stubs + f_accessors(P) + t
+    callee_note = "the seven helpers are replaced by their contracts (each proved in its own group); SymGEigsSolver, EigenSolver, LDLT, BDCSVD assumed"
+    G("compute", ctext + harn["shapes"], "compute", [HDR + ":compute"], timeout=600,
+      expect=["loop_invariant_step", "assigns", "product dimensions agree", "sum/difference", "Eigen block assertion", "column index in range", "vector coefficient in range",
+              "precondition of stack_9_matricies at call site", "precondition of removeColumns at call site", "precondition of checkConvergence_getBlocksize at call site",
+              "DenseCholesky", "same dimension"],
+      note="every Eigen assertion and every callee precondition of compute(), the loop contract of the iteration (unbounded), the class invariant at every exit; " + callee_note)
+    G("compute.inner_solver_ctor", ctext + harn["inner_ctor"], "compute", [HDR + ":compute"], timeout=600, defines=["NO_EIG_ASSERT", "CHECK_INNER_CTOR"],
+      expect=["loop_invariant_step", "precondition of the SymGEigsSolver constructor"],
+      note="same text; decides ONLY the precondition of the SymGEigsSolver constructor at its call site (the Eigen assertions are discharged in lobpcg.compute)")
+    G("compute.status", ctext + harn["status"], "compute", [HDR + ":compute"], timeout=600, defines=["NO_EIG_ASSERT"], expect=["loop_invariant_step", "status protocol"],
+      note="same text; decides ONLY the status protocol, from an arbitrary prior m_info (object reuse)")
+    G("compute.accessors", ctext + harn["accessors"], "compute", [HDR + ":compute", HDR + ":eigenvalues", HDR + ":eigenvectors", HDR + ":residuals"], timeout=600,
+      defines=["NO_EIG_ASSERT"], expect=["loop_invariant_step", "eigenvectors() is n x k", "eigenvalues() has k entries"],
+      note="same text; the three accessors (extracted) are called on the exit state of compute()")
+    meta = {"level": "proof", "trusted_base": ["cbmc 6.11.0 dfcc", "cadical", "extractor + generic shape evaluator (props/C17.py)"],
+            "assumptions": ASSUMPTIONS, "not_covered": NOT_COVERED, "extraction": report,
+            "explanation": "structural clauses of C17 only, on C text re-extracted from contrib/LOBPCGSolver.h by the generic shape evaluator; unbounded in n, k, maxit, iterations, flags and prior object state"}
+    return groups, meta
+
+
+def replay(g, o, assigns, path):
+    from vlib import replay as RP
+    txt = (o.get("desc") or "") + " " + g.name
+    if "SymGEigsSolver constructor" in txt or g.name.endswith("inner_solver_ctor"):
+        mode = 2
+    elif "status protocol" in txt or g.name.endswith(".status"):
+        mode = 3
+    elif g.name.endswith(".accessors") or "eigenvectors()" in txt:
+        mode = 1
+    else:
+        mode = 4
+    return RP.run_native(PROP, RP.src("C17_lobpcg_replay.cpp"), args=[mode], cxxflags="-O1 -std=c++11", name="replay%d" % mode)
+
+
+MANIFEST = {
+    "category": "proof",
+    "text": "Proof of the contract-expressible (structural) part of C17 on C text re-extracted from contrib/LOBPCGSolver.h (all n, k, maxit, with/without B, preconditioner, constraints, every iteration, "
+            "every prior object state): every Eigen shape assertion of compute() and its seven helpers (product inner dimensions, equal shapes of sums, block / column / coefficient selectors, block assignments), "
+            "stack_4/9_matricies, removeColumns, checkConvergence_getBlocksize (returns m_nev minus the number of columns below tolerance, pushes exactly those indices in increasing order), "
+            "orthogonalizeInPlace / applyConstraintsInPlace (shape-preserving, status protocol), constructor and setters (class invariant), the precondition of the inner SymGEigsSolver constructor, "
+            "info() == Success ==> the last convergence test of this compute() passed, accessor shapes. NOT decided: k smallest eigenvalues, X'BX = I, the residual identity and bound.",
+    "note": "floating-point values dropped; Eigen LDLT / BDCSVD / EigenSolver, std::map / std::find and the inner SymGEigsSolver are assumed contracts; the initial LDLT and the dense EigenSolver are assumed to succeed "
+            "(quantifier of the property)",
+    "technique": "CBMC dfcc frame + loop contracts with Skolem indices and ghost cursors on mechanically extracted C (cadical); generic shape evaluator for Eigen expressions",
+}
